@@ -274,6 +274,10 @@ func internalUnmarshal(v *internalStruct) (any, error) {
 		if !ok {
 			return nil, fmt.Errorf("unknown type key: %v", v.Type)
 		}
+		if v.PointerNum > 0 && string(v.JSONValue) == "null" {
+			// a nil pointer: nothing to decode (and the pointee type need not be decodable by sonic, e.g. a struct with a map[bool]T field)
+			return reflect.Zero(resolvePointerNum(v.PointerNum, t)).Interface(), nil
+		}
 		pResult := reflect.New(resolvePointerNum(v.PointerNum, t))
 		err := sonic.Unmarshal(v.JSONValue, pResult.Interface())
 		if err != nil {
